@@ -128,7 +128,7 @@ struct Stats {
       x = v;
   }
 };
-extern Stats g_stats;
+extern thread_local Stats g_stats;  // per thread; task threads merge into the main thread's at their end
 
 inline void count(const char* k, uint64_t n = 1) {
   g_stats.c[k] += n;
